@@ -639,12 +639,18 @@ func CreateState(filename string, reader *files.Reader, fileOffset int, lineNumb
 }
 
 func (es *SearchEngineState) Copy() *SearchEngineState {
+	// bindings must not be shared between a state and its saved choice points
+	loopStack := es.loopStack.Copy()
+	for i := 0; i < int(loopStack.Size()); i++ {
+		loopState := loopStack.Index(i)
+		loopState.variables = loopState.variables.Copy().Hashmap()
+	}
 	return &SearchEngineState{
-		loopStack:         es.loopStack.Copy(),
+		loopStack:         loopStack,
 		backtrack:         es.backtrack.Copy(),
 		variableStack:     es.variableStack.Copy(),
 		callStack:         es.callStack.Copy(),
-		environment:       es.environment,
+		environment:       es.environment.Copy().Hashmap(),
 		status:            es.status,
 		programCounter:    es.programCounter,
 		currentFileOffset: es.currentFileOffset,
